@@ -15,25 +15,28 @@ HeadersDef == <<
     [date |-> 20200105, flag |-> Some("!"), payee |-> Null,         narration |-> Some("Buy")],
     [date |-> 20210210, flag |-> Some("*"), payee |-> Some("Job"),  narration |-> Some("Pay")] >>
 
-PT(t, a, c, k, n) == [txn |-> t, account |-> a, lot |-> <<c, k, n>>]
+\* a posting without a flag of its own (the usual case) / with one.  The flagged ones sit in transactions whose own flag
+\* is the other one (2, 5, 14), the same one (8, 13) -- "one leg of the transaction is still to be checked"
+PF(t, a, c, k, n, fl) == [txn |-> t, account |-> a, lot |-> <<c, k, n>>, pflag |-> fl]
+PT(t, a, c, k, n) == PF(t, a, c, k, n, Null)
 K3 == <<3, "USD", 20200105>>
 K4 == <<4, "USD", 20210210>>
 K2 == <<2, "USD", 20200105>>
 PoolAll == <<
     PT(1, "Assets:Bank",      "USD", NoCost, -5),
-    PT(1, "Expenses:Food",    "USD", NoCost, 5),
+    PF(1, "Expenses:Food",    "USD", NoCost, 5, Some("!")),
     PT(1, "Liabilities:Card", "USD", NoCost, -5),
     PT(2, "Assets:Broker",    "HOO", K3, 2),
-    PT(2, "Assets:Bank",      "USD", NoCost, -6),
+    PF(2, "Assets:Bank",      "USD", NoCost, -6, Some("*")),
     PT(2, "Expenses:Bank",    "USD", NoCost, 2),
     PT(3, "Assets:Bank",      "USD", NoCost, 5),
-    PT(3, "Income:Job",       "USD", NoCost, -7),
+    PF(3, "Income:Job",       "USD", NoCost, -7, Some("*")),
     PT(3, "Assets:Broker",    "HOO", K3, -2),
     PT(3, "Equity:Open",      "USD", NoCost, 4),
     PT(2, "Assets:Broker",    "HOO", NoCost, 1),
     PT(3, "Assets:Broker",    "HOO", K4, 1),
-    PT(2, "Expenses:Food",    "HOO", K2, 3),
-    PT(1, "Equity:Open",      "HOO", NoCost, -1) >>
+    PF(2, "Expenses:Food",    "HOO", K2, 3, Some("!")),
+    PF(1, "Equity:Open",      "HOO", NoCost, -1, Some("!")) >>
 Pool10 == SubSeq(PoolAll, 1, 10)
 Pool14 == PoolAll
 \* the account order is a strict total order on the accounts in use (evaluated once)
@@ -62,7 +65,9 @@ Wheres == <<
     TrueE,
     MatchE("account", FALSE, "Assets"),
     CmpE("currency", "=", "USD", Quote("USD")),
-    AndE(MatchE("account", FALSE, "bank"), CmpE("number", "<", 0, "0")) >>
+    AndE(MatchE("account", FALSE, "bank"), CmpE("number", "<", 0, "0")),
+    \* the flag of the transaction, whatever flags its postings carry
+    CmpE("flag", "=", "!", Quote("!")) >>
 Accts == << NoAcct, Acct(FALSE, "Assets"), Acct(TRUE, "Assets:Bank"), Acct(FALSE, "Bank"), Acct(FALSE, "food"),
             Acct(TRUE, "Expenses"), Acct(FALSE, "Nomatch") >>
 
@@ -106,7 +111,9 @@ BigWheres == <<
     TrueE,
     MatchE("account", FALSE, "Assets"),
     CmpE("currency", "=", "USD", Quote("USD")),
-    AndE(MatchE("account", FALSE, "food"), CmpE("year", "=", 2020, "2020")) >>
+    AndE(MatchE("account", FALSE, "food"), CmpE("year", "=", 2020, "2020")),
+    CmpE("flag", "=", "!", Quote("!")),
+    OrE(CmpE("posting_flag", "=", "!", Quote("!")), AndE(CmpE("flag", "=", "*", Quote("*")), MatchE("account", FALSE, "Assets"))) >>
 BigAccts == << NoAcct, Acct(FALSE, "Assets"), Acct(TRUE, "Assets:US:BofA"), Acct(FALSE, "Checking"), Acct(FALSE, "food"),
                Acct(TRUE, "Expenses"), Acct(FALSE, "Nomatch") >>
 BigPrintFroms == <<
